@@ -96,6 +96,14 @@ def _stream_job(job):
             try:
                 tap.ctx = "runfresh"
                 s.run(n_total=job.get("n_total", 24), progress=False, save_every=job.get("save_every"))
+                # public accessors after the run: none of them may seed the global stream
+                tap.ctx = "accessor"
+                for call in (lambda: s.posterior(), lambda: s.posterior(resample=True), lambda: s.posterior(resample=True, trim_importance_weights=False, return_logw=True),
+                             lambda: s.evidence(), lambda: s.results(), lambda: s.state.to_dict()):
+                    pre = rng_tag(tags)
+                    call()
+                    events.append({"ev": "Step", "name": "accessor", "pre": pre, "post": rng_tag(tags)})
+                    state["last"] = rng_tag(tags)
                 tap.ctx = "app"
                 if job.get("resume"):
                     import glob
@@ -173,6 +181,16 @@ def noninterference(ck):
             s.sample()
             posts.append(rng_tag(tags))
         events.append({"ev": "NonInterf", "op": "Sampler.sample() " + repr(conf), "postA": posts[0], "postB": posts[1]})
+        for rs in (None, 7):
+            posts = []
+            for pre in (505, 606):
+                np.random.seed(7)
+                s, _ = drivers.build_sampler(dict(conf, n_particles=16, random_state=rs), None)
+                s.run(n_total=16, progress=False)
+                np.random.seed(pre)
+                s.posterior(resample=True)
+                posts.append(rng_tag(tags))
+            events.append({"ev": "NonInterf", "op": f"Sampler.posterior(resample=True) random_state={rs} " + repr(conf), "postA": posts[0], "postB": posts[1]})
     return {"label": "noninterference", "events": events, "conf": {}}
 
 
@@ -233,7 +251,7 @@ def main():
             dict(evaluation="blobs", clustering=True), dict(volume_variation=0.5)]
     jobs = []
     for i, c in enumerate(base if ck.tier == "thorough" else base[:4]):
-        for rs in (None, 3):
+        for rs in (None, 3, 0):
             jobs.append(dict(conf=dict(c, random_state=rs), seed=900 + i + ck.seed, label=f"stream#{i} rs={rs}", save_every=2, resume=True))
     with cf.ProcessPoolExecutor(max_workers=sysrun.PROCS, mp_context=mp.get_context("fork")) as ex:
         traces = [t for ts in ex.map(_stream_job, jobs) for t in ts]
@@ -256,8 +274,9 @@ def main():
     meta = []
     confs = base if ck.tier == "thorough" else base[:4]
     for i, c in enumerate(confs):
-        a = dict(conf=dict(c, random_state=5), seed=11 + i, n_total=24)
-        b = dict(conf=dict(c, random_state=5), seed=9999 - i, n_total=24, pre_draws=37)
+        rs = 0 if i % 2 == 0 else 5   # 0 is a legal seed too
+        a = dict(conf=dict(c, random_state=rs), seed=11 + i, n_total=24)
+        b = dict(conf=dict(c, random_state=rs), seed=9999 - i, n_total=24, pre_draws=37)
         d = dict(conf=dict(c, random_state=6), seed=11 + i, n_total=24)
         k = len(pj)
         pj += [a, b, d]
@@ -287,7 +306,26 @@ def main():
     n_loads = sum(1 for t in rtraces for e in t["events"] if e["ev"] == "Load")
     if n_loads == 0:
         raise tlc.TLCFailure("vacuous: no Load event")
+    # ---- binding A (4): the same seeded run twice in ONE process (library-level caches / module state must not leak)
+    tj = [dict(conf=dict(c, random_state=9), seed=31 + i, n_total=32) for i, c in enumerate(
+        [dict(clustering=True, target="narrow", n_particles=32), dict(clustering=True, target="bimodal", n_particles=16), dict(clustering=False)])]
+    TR = pairs.run_many(tj, func=pairs.run_twice)
+    TP = []
+    for j, r in zip(tj, TR):
+        if "first" not in r:
+            ck.violation("pair:raised", f"run raised {r.get('raised')}", {"job": j})
+            continue
+        TP.append((j, pairs.project_pair(r["first"], r["second"], kind="same", exact=True)))
+    tf, tst = pairs.validate_pairs([p for _, p in TP])
+    seen = set()
+    for f in tf:
+        if f["pid"] in seen:
+            continue
+        seen.add(f["pid"])
+        j = TP[f["pid"] - 1][0]
+        ck.violation("repro:same-process:" + f["clauses"][0], f"the same seeded run repeated in one process differs at iteration {f['i']}: {j['conf']}", {"job": j, "clauses": f["clauses"]})
     ck.finish({
+        "same_process_pairs": len(TP),
         "load_events_validated": n_loads,
         "states": states, "transitions": trans, "rngstream_impl_refuted": refuted,
         "traces_validated_against_impl": len(traces) + len(P),
